@@ -57,7 +57,7 @@ DATA_FIELDS = {("xmp_sample", "data"), ("mixer_voice", "sptr"), ("loop_data", "s
 TARGETS = ["sampleBytes", "sampleHdr", "sampleExtra", "instrument", "subinstrument", "envelope", "pattern", "track",
            "event", "orderList", "channelTbl", "moduleHdr"]
 STORE_CALLS = {"memcpy", "memmove", "memset", "strcpy", "strncpy", "strlcpy", "snprintf", "sprintf", "fread",
-               "hio_read", "__builtin_memcpy", "__builtin_memset", "__builtin_memmove", "libxmp_copy_adjust"}
+               "hio_read", "__builtin_memcpy", "__builtin_memset", "__builtin_memmove"}
 ASSIGN_OPS = {"=", "+=", "-=", "*=", "/=", "%=", "&=", "|=", "^=", "<<=", ">>="}
 
 
@@ -132,9 +132,17 @@ class Prov:
         return self.items
 
 
-def walk_chain(n, env, through_deref=False):
-    """Return list of provenance item-lists (alternatives) for expression n, innermost first.
-    `through_deref`: the store goes through the *value* of n (n is used as a pointer that is dereferenced)."""
+NON_CONTAINERS_OK = {"module_data", "context_data", "smix_data", "xmp_module"} | set(RECORD_TARGET)
+
+
+def walk_chain(n, env, nd=0):
+    """Path from the stored-to location outwards, as alternatives of item lists.
+    `nd` = how many times the *value* of expression n is dereferenced to reach the location
+    (0: the location is the object n designates itself).
+    items: ('rec', record, field)   a field of a record object
+           ('data', record, field)  the PCM a sample-data pointer field points to
+           ('deref',)               a pointer value loaded from the next item is followed
+           ('call', name) ('root', name, type) ('localobj', name, type)   chain ends"""
     n = strip(n)
     if n is None:
         return [[]]
@@ -142,97 +150,110 @@ def walk_chain(n, env, through_deref=False):
     inner = n.get("inner") or []
     if k == "MemberExpr":
         base = inner[0]
-        bt = qual(strip(base)) if n.get("isArrow") else qual(strip(base))
-        rec, _ = record_of(bt)
+        rec, _ = record_of(qual(strip(base)))
         fld = n.get("name", "")
-        item = ("data" if (through_deref and (rec, fld) in DATA_FIELDS) else "rec", rec or "?", fld)
-        # `a->b` dereferences a; `a.b` does not
-        alts = walk_chain(base, env, through_deref=bool(n.get("isArrow")))
-        mark = [("deref",)] if n.get("isArrow") else []
-        return [[item] + mark + a for a in alts]
+        isdata = nd >= 1 and (rec, fld) in DATA_FIELDS
+        item = ("data" if isdata else "rec", rec or "?", fld)
+        alts = walk_chain(base, env, 1 if n.get("isArrow") else 0)
+        return [[("deref",)] * nd + [item] + a for a in alts]
     if k == "ArraySubscriptExpr":
-        # one side is the pointer/array
         a, b = inner[0], inner[1]
         ptr = a if is_pointerish(qual(strip(a))) else b
-        if "[" in qual(strip(ptr)) and "*" not in qual(strip(ptr)).split("[")[0][-2:]:
-            # element of a true array object (e.g. track->event[row], a local array): same storage as the array
-            return walk_chain(ptr, env, through_deref=True)
-        return [[("deref",)] + a for a in walk_chain(ptr, env, through_deref=True)]
+        t = qual(strip(ptr))
+        if t.rstrip().endswith("]"):
+            # element of a true array object (track->event[row], a local array): same storage as the array
+            return walk_chain(ptr, env, nd)
+        return walk_chain(ptr, env, nd + 1)
     if k == "UnaryOperator":
         op = n.get("opcode")
         if op == "*":
-            return [[("deref",)] + a for a in walk_chain(inner[0], env, through_deref=True)]
+            return walk_chain(inner[0], env, nd + 1)
         if op == "&":
-            return walk_chain(inner[0], env, through_deref=False)
+            return walk_chain(inner[0], env, nd - 1) if nd >= 1 else [[]]
         if op in ("++", "--"):
-            return walk_chain(inner[0], env, through_deref)
+            return walk_chain(inner[0], env, nd)
         return [[]]
-    if k == "BinaryOperator":
+    if k == "BinaryOperator" or k == "CompoundAssignOperator":
         op = n.get("opcode")
         if op in ("+", "-"):
             out = []
             for side in inner:
                 if is_pointerish(qual(strip(side))):
-                    out += walk_chain(side, env, through_deref)
+                    out += walk_chain(side, env, nd)
             return out or [[]]
         if op == ",":
-            return walk_chain(inner[-1], env, through_deref)
+            return walk_chain(inner[-1], env, nd)
         if op in ASSIGN_OPS:
-            return walk_chain(inner[0], env, through_deref)
+            return walk_chain(inner[0], env, nd)
         return [[]]
     if k == "ConditionalOperator":
-        return walk_chain(inner[1], env, through_deref) + walk_chain(inner[2], env, through_deref)
+        return walk_chain(inner[1], env, nd) + walk_chain(inner[2], env, nd)
     if k == "CallExpr":
         callee = strip(inner[0])
         name = (callee.get("referencedDecl") or {}).get("name", "?") if callee else "?"
         rec, depth = record_of(qual(n))
-        items = [("call", name, "")]
-        if rec and depth:
-            items = [("rec", rec, "")] + items if through_deref else items
-        return [items]
+        if rec and depth and nd == depth:
+            return [[("rec", rec, "")] + [("deref",)] * nd + [("call", name, "")]]
+        return [[("deref",)] * nd + [("call", name, "")]]
     if k == "DeclRefExpr":
         d = n.get("referencedDecl") or {}
         name = d.get("name", "?")
         t = (d.get("type") or {}).get("desugaredQualType") or (d.get("type") or {}).get("qualType") or ""
-        if d.get("kind") in ("VarDecl", "ParmVarDecl") and name in env and through_deref:
-            return [list(a) for a in env[name]] or [[]]
+        isvar = d.get("kind") in ("VarDecl", "ParmVarDecl")
+        if nd == 0:
+            return [[("localobj" if isvar else "root", name, t)]]
+        if isvar and name in env and env[name]:
+            return [[("deref",)] * (nd - 1) + list(a) for a in env[name]]
         rec, depth = record_of(t)
-        if through_deref and rec and depth and "*" in t:
-            return [[("rec", rec, ""), ("root", name, t)]]
-        if d.get("kind") in ("VarDecl", "ParmVarDecl") and "*" not in t:
-            return [[("localobj", name, t)]]      # the variable's own storage (struct/array by value)
-        return [[("root", name, t)]]
+        if rec and depth and nd == depth:
+            return [[("rec", rec, "")] + [("deref",)] * nd + [("root", name, t)]]
+        return [[("deref",)] * nd + [("root", name, t)]]
     return [[]]
 
 
 def classify(items):
-    """items innermost first -> (target, smix, field) or None"""
+    """items (location outwards) -> (target, smix, field) or None"""
     items = list(items)
     if items and items[-1][0] == "localobj":
-        # accesses after the last dereference are inside the local object itself
+        # everything after the last dereference lives inside the local object itself
         last = max([i for i, it in enumerate(items) if it[0] == "deref"], default=-1)
         items = items[:last + 1]
-    items = [it for it in items if it[0] != "deref"]
     smix = any(it[0] in ("rec", "data") and it[1] == "smix_data" for it in items)
+    first_field = next((it[2] for it in items if it[0] == "rec"), "") if items and items[0][0] == "rec" else ""
+
+    def embedded_in_foreign(idx):
+        # the record object found at idx is embedded (no pointer hop) in a non-module container
+        for it in items[idx + 1:]:
+            if it[0] == "deref":
+                return False
+            if it[0] in ("rec", "data") and it[1] not in NON_CONTAINERS_OK:
+                return True
+        return False
+
     for idx, it in enumerate(items):
+        if it[0] == "deref":
+            continue
         if it[0] == "data":
-            return ("sampleBytes", smix, "")
+            return ("sampleBytes", smix, "", "%s.%s" % (it[1], it[2]))
         if it[0] != "rec":
             continue
         rec, fld = it[1], it[2]
         if rec == "xmp_module":
-            if idx == 0:
-                return ("moduleHdr", smix, fld)
-            # went through a table pointer of the module: class of what it points to
+            if embedded_in_foreign(idx):
+                return None
+            before = [x for x in items[:idx] if x[0] != "deref"]
+            hops = [x for x in items[:idx] if x[0] == "deref"]
+            if not before and not hops:
+                return ("moduleHdr", smix, fld, "")
             tbl = {"xxo": "orderList", "xxp": "pattern", "xxt": "track", "xxi": "instrument", "xxs": "sampleHdr",
                    "xxc": "channelTbl"}.get(fld)
-            if tbl:
-                return (tbl, smix, items[0][2] if items[0][0] == "rec" else "")
-            return ("moduleHdr", smix, fld)
+            return (tbl or "moduleHdr", smix, first_field if tbl else fld, "")
         if rec in RECORD_TARGET:
-            return (RECORD_TARGET[rec], smix, items[0][2] if items[0][0] == "rec" else fld)
-        if rec == "module_data" and fld == "xtra":
-            return ("sampleExtra", smix, items[0][2] if idx > 0 else fld)
+            if embedded_in_foreign(idx):
+                return None
+            return (RECORD_TARGET[rec], smix, first_field if idx == 0 else (first_field or fld), "")
+        if rec == "module_data" and fld == "xtra" and any(x[0] == "deref" for x in items[:idx]):
+            return ("sampleExtra", smix, first_field, "")
     return None
 
 
@@ -260,8 +281,9 @@ def collect_function(fn, fname):
             t = (c.get("type") or {}).get("desugaredQualType") or (c.get("type") or {}).get("qualType") or ""
             rec, depth = record_of(t)
             if rec and depth:
-                env[c.get("name", "?")] = [[("rec", rec, ""), ("root", "param", t)]]
+                pass   # typed by the DeclRefExpr fallback in walk_chain
     stores, assigns, line = [], [], [0]
+    calls = fn.setdefault("_calls", set())
 
     def visit(n):
         if not isinstance(n, dict):
@@ -287,6 +309,8 @@ def collect_function(fn, fname):
         if k == "CallExpr" and inner:
             callee = strip(inner[0])
             name = (callee.get("referencedDecl") or {}).get("name") if callee else None
+            if name:
+                calls.add(name)
             if name in STORE_CALLS and len(inner) > 1:
                 stores.append((here, {"kind": "UnaryOperator", "opcode": "*", "inner": [inner[1]]}))
         for c in inner:
@@ -297,7 +321,7 @@ def collect_function(fn, fname):
     for _ in range(6):
         changed = False
         for name, init in assigns:
-            alts = walk_chain(init, env, through_deref=True)
+            alts = walk_chain(init, env, 1)
             alts = [a for a in alts if any(it[0] in ("rec", "data") for it in a)]
             cur = env.setdefault(name, [])
             for a in alts:
@@ -308,7 +332,7 @@ def collect_function(fn, fname):
             break
     out = []
     for ln, lv in stores:
-        for items in walk_chain(lv, env, through_deref=False):
+        for items in walk_chain(lv, env, 0):
             c = classify(items)
             if c:
                 out.append((ln,) + c)
@@ -320,6 +344,7 @@ def scan_file(args):
     ast = clang_ast(repo, fname)
     text = open(os.path.join(repo, "src", fname), errors="replace").read()
     entries = []
+    called = set()
     cur_file = [None]
     main = os.path.join(repo, "src", fname)
     for d in ast.get("inner", []):
@@ -338,9 +363,11 @@ def scan_file(args):
             in_main = False
         if not in_main:
             continue
-        for (ln, target, smix, field) in collect_function(d, fname):
-            entries.append({"file": fname, "func": name, "target": target, "smix": smix, "field": field, "line": ln})
-    return entries
+        for (ln, target, smix, field, via) in collect_function(d, fname):
+            entries.append({"file": fname, "func": name, "target": target, "smix": smix, "field": field, "via": via,
+                            "line": ln})
+        called |= d.get("_calls", set())
+    return entries, called
 
 
 # ---- constants --------------------------------------------------------------
@@ -383,8 +410,11 @@ def generate(repo=None):
     files = player_files(repo)
     with concurrent.futures.ThreadPoolExecutor(max_workers=min(8, os.cpu_count() or 2)) as ex:
         results = list(ex.map(scan_file, [(repo, f) for f in files]))
-    entries = [e for r in results for e in r]
-    uniq = sorted({(e["file"], e["func"], e["target"], e["smix"], e["field"]) for e in entries})
+    entries = [e for r in results for e in r[0]]
+    called = set().union(*[r[1] for r in results]) if results else set()
+    for e in entries:
+        e["playerCalled"] = e["func"] in called
+    uniq = sorted({(e["file"], e["func"], e["target"], e["smix"], e["field"], e["via"], e["playerCalled"]) for e in entries})
     k = constants(repo)
     L = []
     L.append("/-! GENERATED by tools/gen_data_writers.py from the libxmp working tree — do not edit. -/")
@@ -398,10 +428,15 @@ def generate(repo=None):
     L.append("(\"\" for element stores through a data pointer) -/")
     L.append("structure Writer where")
     L.append("  file : String\n  func : String\n  target : Target\n  smix : Bool\n  field : String")
+    L.append("  /-- for `sampleBytes`: the pointer field the store goes through (`record.field`) -/")
+    L.append("  via : String")
+    L.append("  /-- some function of the scanned player-side files calls `func` by name -/")
+    L.append("  playerCalled : Bool")
     L.append("  deriving DecidableEq, Repr\n")
     L.append("def dataWriters : List Writer := [")
-    rows = ["  { file := %s, func := %s, target := .%s, smix := %s, field := %s }" % (
-        lean_str(f), lean_str(fn), t, "true" if sm else "false", lean_str(fl)) for (f, fn, t, sm, fl) in uniq]
+    rows = ["  { file := %s, func := %s, target := .%s, smix := %s, field := %s, via := %s, playerCalled := %s }" % (
+        lean_str(f), lean_str(fn), t, "true" if sm else "false", lean_str(fl), lean_str(via), "true" if pc else "false")
+        for (f, fn, t, sm, fl, via, pc) in uniq]
     L.append(",\n".join(rows))
     L.append("]\n")
     L.append("/-- player-side files that were scanned -/")
@@ -438,7 +473,8 @@ def main():
         print("gen_data_writers: " + str(e))
         return 2
     for e in sorted(entries, key=lambda e: (e["file"], e["line"])):
-        print("%s:%d %s %s%s %s" % (e["file"], e["line"], e["func"], e["target"], " [smix]" if e["smix"] else "", e["field"]))
+        print("%s:%d %s %s%s %s %s%s" % (e["file"], e["line"], e["func"], e["target"], " [smix]" if e["smix"] else "",
+                                       e["field"], e["via"], " (called from player side)" if e["playerCalled"] else ""))
     print("%d store sites, %s" % (len(entries), "file rewritten" if changed else "file unchanged"))
     return 0
 
